@@ -55,17 +55,21 @@ class Ctx:
         self.assumptions = []
         self.analysed = {}
         self.only_rule = None
+        self.default_cfg = "default"
+        self.key_prefix = ""
 
     # ---- facts access -------------------------------------------------------
-    def lib(self, cfg="default"):
-        return self.facts[cfg]["jmespath"]
+    def lib(self, cfg=None):
+        return self.facts[cfg or self.default_cfg]["jmespath"]
 
     def jp(self):
         return self.facts["default"]["jp"]
 
     # ---- recording ------------------------------------------------------------
     def _add(self, rule, key, status, what, loc, detail):
-        key = f"{rule}:{key}"
+        key = f"{self.key_prefix}{rule}:{key}"
+        if self.key_prefix:
+            what = f"{self.key_prefix} {what}"
         self.instances.append(Instance(rule, key, status, what, loc, detail))
 
     def ok(self, rule, key, what, loc="", detail=None):
@@ -98,6 +102,20 @@ class Ctx:
         else:
             self._add(rule, "floor", "ok", f"{what}: {count} (floor {minimum})", "", None)
 
+    def attempt(self, label, fn, *args, **kw):
+        """Run one rule group; a shape the rules cannot even traverse is `undecided` for that
+        group (reported as a violation of that group only), not a crash of the whole check."""
+        try:
+            return fn(*args, **kw)
+        except Exception as e:  # noqa: BLE001
+            import traceback
+
+            tb = traceback.format_exc().strip().splitlines()
+            where = next((l.strip() for l in reversed(tb) if l.strip().startswith("File ") and "/vlib/" in l), "")
+            self._add("undecided", label, "violation",
+                      f"rule group {label} could not be evaluated on this tree (construct outside the idiom envelope: {type(e).__name__}: {e}; {where})", "", None)
+            return None
+
     def note(self, text):
         self.notes.append(text)
 
@@ -105,8 +123,9 @@ class Ctx:
         if text not in self.assumptions:
             self.assumptions.append(text)
 
-    def fn(self, path, cfg="default", crate="jmespath", rule=None):
+    def fn(self, path, cfg=None, crate="jmespath", rule=None):
         """Body by def-path; records an anchor-missing instance when absent."""
+        cfg = cfg or (self.default_cfg if crate == "jmespath" else "default")
         f = self.facts[cfg][crate]
         b = f.fn(path)
         if b is None and rule is not None:
@@ -148,7 +167,69 @@ def run_property(pid, tier, only_rule=None):
     ctx = Ctx(pid, tier, facts, thash)
     ctx.only_rule = only_rule
     mod.run(ctx)
+    if tier == "thorough" and not getattr(mod, "HANDLES_CONFIGS", False):
+        # the same rules on every other feature configuration (sync analysed modulo Arc -> Rc)
+        for cfg in cfgs:
+            if cfg == "default" or not getattr(mod, "PER_CONFIG", True):
+                continue
+            nfacts = dict(facts)
+            nfacts[cfg] = {k: Facts(p, normalise=True) for k, p in paths[cfg].items()}
+            sub = Ctx(pid, tier, nfacts, thash)
+            sub.default_cfg = cfg
+            sub.key_prefix = f"[{cfg}] "
+            mod.run(sub)
+            ctx.instances.extend(sub.instances)
+            ctx.notes.extend(sub.notes)
+            for a in sub.assumptions:
+                ctx.assume(a)
+            ctx.analysed[f"[{cfg}]"] = {k: v for k, v in sub.analysed.items() if isinstance(v, (int, str))}
     return mod, ctx
+
+
+def liveness(pid, max_workers=6):
+    """Thorough tier: show that the rules of this property are alive by running its
+    one-site mutants (scratch copies outside /repo and /verif, removed afterwards)."""
+    from concurrent.futures import ThreadPoolExecutor
+    from . import selftest
+
+    try:
+        muts = [m for m in selftest.load_mutants() if not m.get("equiv") and any(e["prop"] == pid for e in m.get("expect", []))]
+        equiv = [m for m in selftest.load_mutants() if m.get("equiv") and pid in m.get("props", [])]
+    except Exception as e:  # no mutant file: nothing to show
+        return {"mutants": 0, "error": str(e)}
+    res = {"mutants": len(muts), "fired": 0, "missed": [], "stale": [], "equivalent_edits": len(equiv), "equivalent_silent": 0, "false_alarms": []}
+
+    def one(m):
+        edits = m.get("edits") or [{"file": m["file"], "old": m["old"], "new": m["new"], "count": m.get("count", 1)}]
+        try:
+            d = selftest.make_scratch(edits)
+        except RuntimeError:
+            return (m, "stale", None)
+        try:
+            rc, out = selftest.run_check(pid, d)
+            return (m, rc, out)
+        finally:
+            import shutil
+            shutil.rmtree(d, ignore_errors=True)
+
+    with ThreadPoolExecutor(max_workers=max_workers) as ex:
+        for m, rc, out in ex.map(one, muts + equiv):
+            if rc == "stale":
+                res["stale"].append(m["name"])
+                continue
+            if m.get("equiv"):
+                if rc == 0:
+                    res["equivalent_silent"] += 1
+                else:
+                    res["false_alarms"].append(m["name"])
+                continue
+            keys = [e["key"] for e in m["expect"] if e["prop"] == pid]
+            lines = [l for l in out.splitlines() if l.startswith(("VIOLATION:", "MISSING:"))]
+            if rc == 1 and all(any(k in l for l in lines) for k in keys):
+                res["fired"] += 1
+            else:
+                res["missed"].append(m["name"])
+    return res
 
 
 def check(pid, tier):
@@ -193,14 +274,16 @@ def check(pid, tier):
     knownhits = []
     for inst in ctx.instances:
         if inst.status in ("violation", "missing"):
-            if inst.status == "violation" and inst.key in kn:
+            base_key = re.sub(r"^\[[^\]]+\] ", "", inst.key)  # the same construct under another feature configuration
+            if inst.status == "violation" and (inst.key in kn or base_key in kn):
                 knownhits.append(inst)
             else:
                 viol.append(inst)
     for inst in knownhits:
-        print(f"KNOWN-FINDING: property={pid} {inst.key} -- {kn[inst.key]} [{inst.loc}]")
+        text = kn.get(inst.key) or kn.get(re.sub(r"^\[[^\]]+\] ", "", inst.key))
+        print(f"KNOWN-FINDING: property={pid} {inst.key} -- {text} [{inst.loc}]")
     # a listed finding that no longer fires is only a note (nothing is suppressed by it)
-    fired = {i.key for i in knownhits}
+    fired = {i.key for i in knownhits} | {re.sub(r"^\[[^\]]+\] ", "", i.key) for i in knownhits}
     for k in kn:
         if k not in fired:
             ctx.note(f"known finding {k} did not fire on this tree")
@@ -220,6 +303,14 @@ def check(pid, tier):
             )
         print(f"{inst.status.upper()}: [{inst.rule}] {inst.what}  @ {inst.loc}  key={inst.key}")
         print(f"VIOLATION property={pid} replay={rp}")
+    if tier == "thorough" and not os.environ.get("VERIF_REPO"):
+        lv = liveness(pid)
+        ctx.analysed["rule_liveness"] = lv
+        print(f"rule liveness: {lv.get('fired', 0)}/{lv.get('mutants', 0)} one-site mutants of this property detected; "
+              f"{lv.get('equivalent_silent', 0)}/{lv.get('equivalent_edits', 0)} behaviour-preserving edits silent"
+              + (f"; not detected: {lv['missed']}" if lv.get("missed") else "")
+              + (f"; false alarms: {lv['false_alarms']}" if lv.get("false_alarms") else "")
+              + (f"; stale anchors (source changed): {len(lv['stale'])}" if lv.get("stale") else ""))
     _write_evidence(evpath, pid, tier, seed, mod, ctx, viol, knownhits, time.time() - t0)
     nok = sum(1 for i in ctx.instances if i.status == "ok")
     print(
